@@ -81,12 +81,12 @@ func TestVerifC19_mhcv_agg(t *testing.T) {
 			c19M(3, 1, 2), c19M(3, 2, 1), c19M(3, 2, 2), c19M(3, 2, 5), c19M(3, 2, 6), c19M(3, 3, 2),
 			c19M(4, 2, 1), c19M(4, 2, 2), c19M(4, 4, 3), c19M(10, 2, 3),
 		},
-		FullShares:  []int{2, 3},
-		LightShares: []int{4, 8, 9, 255},
-		MaxBatch:    3,
-		RTMaxBatch:  2,
-		Seeds:       r.Pick(2, 5),
-		DomainLimit: 8,
+		FullShares:    []int{2, 3},
+		LightShares:   []int{4, 8, 9, 255},
+		MaxBatch:      3,
+		RTMaxBatch:    2,
+		Seeds:         r.Pick(2, 5),
+		DomainLimit:   8,
 		SweepInsts:    []prio.Inst{c19M(3, 2, 2)},
 		HistoryInsts:  []prio.Inst{c19M(3, 2, 2), c19M(2, 1, 1)},
 		HistoryShares: []int{2, 3},
@@ -99,6 +99,7 @@ func TestVerifC19_mhcv_agg(t *testing.T) {
 }
 
 func TestVerifC19_mhcv_invalid(t *testing.T) {
+	verifc19.SkipNarrow(t)
 	r := verifmc.Start(t, "C19", "mhcv_invalid")
 	defer r.Finish()
 	plan := verifc19.InvalidPlan{
